@@ -134,7 +134,8 @@ int main(int argc, char** argv) {
             sx.stateful = true;
             sx.state_cb = &cp_state;
             sx.thorough_only = scripts.size() > 2;
-            scs.push_back(sx);
+            // three threads without a bound: only the shorter scripts (B and D each add ~10 scheduling points per thread)
+            if (scripts.size() <= 2 || (scripts.find('B') == std::string::npos && scripts.find('D') == std::string::npos)) scs.push_back(sx);
         }
     };
     for (size_t a = 0; a < S.size(); ++a)
